@@ -32,6 +32,18 @@ def run(ctx):
         "sphgeom region overlap is exact for the boxes used",
     ]
     with core.Lock():
+        # T-tie: the control flow of Postprocessing.apply is translated from the working tree into Gen/PostprocessingPy.lean;
+        # C16.Translated.translated_apply_eq identifies it with the page function the paging theorems are about
+        import os as _os
+        import sys as _sys
+
+        _sys.path.insert(0, _os.path.join(core.VERIF, "translate"))
+        try:
+            import gen_postprocessing
+
+            gen_postprocessing.generate(core.GEN_DIR)
+        except Exception as e:  # Untranslatable or anything else: the tie is broken, the searches below still run
+            ctx.broken.append(f"translation: Postprocessing.apply: {type(e).__name__}: {e}")
         built = core.lean_build(ctx, LEAN_TARGETS)
         if built:
             core.lean_audit(ctx, ["ButlerModel.Props.C16"])
